@@ -143,28 +143,13 @@ func (r *c10run) note(stream string, n int, what string) {
 const c10StallAfter = 10 * time.Second
 
 func runC10(c C10Case) ev.Outcome {
-	o, stalled := runC10Once(c)
-	if !stalled {
-		return o
-	}
-	// "complete" can only be judged by waiting: confirm a stall by re-execution before it is
-	// reported (a slow machine is not a violation).
-	if hangConfirmed.Load() {
-		return o
-	}
-	o2, stalled2 := runC10Once(c)
-	if stalled2 {
-		hangConfirmed.Store(true)
-		return o2
-	}
-	if o2.Fail != "" {
-		return o2
-	}
-	o2.Overloaded = true
-	return o2
+	// "complete" can only be judged by waiting: a stall is confirmed by re-execution before it
+	// is reported (a slow machine is not a violation)
+	return withHangConfirmation(c, func() (ev.Outcome, bool) { return runC10Once(c) })
 }
 
 func runC10Once(c C10Case) (ev.Outcome, bool) {
+	defer settleGoroutines(runtime.NumGoroutine())
 	r := &c10run{c: c, abortC: make(chan struct{}), lenient: map[string]bool{}}
 	r.p = connectPair(c.QLen, c.Blocked, c.IDs, nil)
 	defer r.p.shutdown()
